@@ -188,10 +188,19 @@ func c09Gen(r *Rand, tier string, i int) Scenario {
 			if r.Bool(0.5) {
 				at.Commands = append(at.Commands, PickOf(r, "health", "cat: SECRET regex:noop "))
 			}
+			if r.Bool(0.25) {
+				// a login name that is not the service user's but close to it (other case,
+				// padding, a prefix): an ordinary user, who cannot log in with a password
+				at.User = c09NearName(r, at.User)
+				at.Password = PickOf(r, config.HealthUser, config.HealthUser, at.User)
+			}
 		case 6, 7:
 			at.User = PickOf(r, config.ScheduleUser, config.ContinuousUser)
 			at.Auth = "password"
 			at.Password = PickOf(r, "job0", "job1", "job2", "job3", "nojob", "", "JOB0")
+			if r.Bool(0.2) {
+				at.User = c09NearName(r, at.User)
+			}
 		case 8:
 			at.User = c09Users[r.Intn(nu)]
 			at.Auth = "password"
@@ -228,6 +237,25 @@ func c09Gen(r *Rand, tier string, i int) Scenario {
 	}
 	sc.Net = verifsimnet.Profile{LatencyMs: PickOf(r, 0, 1)}
 	return sc
+}
+
+// c09NearName returns a login name that differs from a service user's name only in
+// case, padding or length: the service users are fixed names, nothing near them is one.
+func c09NearName(r *Rand, name string) string {
+	switch r.Intn(6) {
+	case 0:
+		return strings.ToLower(name)
+	case 1:
+		return name[:1] + strings.ToLower(name[1:])
+	case 2:
+		return strings.ToLower(name[:1]) + name[1:]
+	case 3:
+		return name + " "
+	case 4:
+		return name[:len(name)-1]
+	default:
+		return name + "2"
+	}
 }
 
 // c09KeyText expands {{key:N}} into the text (type and base64) of pool key N.
